@@ -147,6 +147,10 @@ fn emit_nodes_with_continuation(
     context: &EmitContext,
     fallback_continuation: Option<&str>,
 ) -> Result<EmittedContainer, CompilerError> {
+    if path_exceeds_story_depth(&scope.path) {
+        return Err(story_nested_too_deep());
+    }
+
     let mut out = EmittedContainer::default();
     let mut next_choice_index = 0;
 
